@@ -202,6 +202,7 @@ def c01(rep, tier):
     r_arith.run(p, rep, reach=pr)
     r_parsers.run_arity(p, rep)
     r_parsers.run_closed(p, rep)
+    r_parsers.run_filter_arity(p, rep)
     rep.analysed["config:all"] = {"bodies": len(p.fns), "parse_reachable": len(pr)}
 
 
